@@ -264,7 +264,53 @@ pub fn oracle(c: &Case) -> Verdict {
             let (sig, msg) = rest.split_once(':').unwrap_or((rest, ""));
             return Err(bad(sig, msg));
         }
-        return Err(bad("harness_e2e", e));
+        // diagnostics for a request that never completed: what did the node see of it?
+        let mut diag = String::new();
+        if let Some(a) = e.find("/*v:") {
+            if let Some(b) = e[a..].find("*/") {
+                let m = &e[a..a + b + 2];
+                let log = mock.log();
+                for (i, en) in log.iter().enumerate() {
+                    if let LogKind::Request(f) = &en.kind {
+                        if request_marker(&sh, f).as_deref() == Some(m) {
+                            let answered = log[i..].iter().any(|x| x.conn == en.conn && matches!(x.kind, LogKind::Response(st, _) if st == f.stream));
+                            let closed = log[i..].iter().any(|x| x.conn == en.conn && matches!(x.kind, LogKind::ConnClosed));
+                            diag += &format!(" [frame on node {} conn {} stream {} at seq {}: answered={answered} conn_closed_later={closed}]", en.node, en.conn, f.stream, en.seq);
+                        }
+                    }
+                }
+                if diag.is_empty() {
+                    diag = " [no frame of it reached any node]".into();
+                }
+                // state of the world
+                let t_end = log.last().map(|e| e.at);
+                for n in 0..total {
+                    diag += &format!(" node{n}: mock_conns={:?}", mock.live_conns(n));
+                }
+                for nd in session.get_cluster_state().get_nodes_info() {
+                    diag += &format!(" driver:{}:connected={}", nd.address, nd.is_connected());
+                }
+                diag += " log_tail:";
+                for en in log.iter().rev().take(60).collect::<Vec<_>>().into_iter().rev() {
+                    let ago = t_end.map(|t| t.duration_since(en.at).as_millis()).unwrap_or(0);
+                    let k = match &en.kind {
+                        LogKind::ConnOpened => "open".to_string(),
+                        LogKind::ConnClosed => "closed".to_string(),
+                        LogKind::Request(f) => match &f.body {
+                            ReqBody::Query { text, .. } => format!("Q[{}]", &text[..text.len().min(28)]),
+                            ReqBody::Options => "OPTIONS".into(),
+                            ReqBody::Startup(_) => "STARTUP".into(),
+                            ReqBody::Register(_) => "REGISTER".into(),
+                            other => format!("{:?}", other).chars().take(12).collect(),
+                        },
+                        LogKind::Response(st, op) => format!("resp(s{st},op{op})"),
+                        other => format!("{other:?}").chars().take(16).collect(),
+                    };
+                    diag += &format!(" -{ago}ms n{}c{} {k};", en.node, en.conn);
+                }
+            }
+        }
+        return Err(bad("harness_e2e", format!("{e}{diag}")));
     }
 
     // ---- oracle over the mock's log
